@@ -180,6 +180,27 @@ CHECKS['C18'] = ('model_checking', 'explore',
     'visits delimited by URL-table check-outs observed from the harness; pruning key argued in '
     'DESIGN.md.', '5/C18')
 
+CHECKS['C10'] = ('exploration', 'enum',
+    'bounded-exhaustive enumeration of URL strings against the canonical-form predicate, '
+    'idempotence, component stability and respelling equivalence',
+    'Component product (7 schemes x 7 user-info x 24 hosts x 9 ports x 21 paths x 10 queries x 3 '
+    'fragments x 3 encodings in thorough) and every string of length <=4 (5 thorough) over a '
+    '20-symbol alphabet after "http://" and "http://h/": for each accepted network-scheme input '
+    'the normal form must be ASCII, free of whitespace/C0, lower-case scheme/host, no default '
+    'port, absolute path without dot/empty segments, upper-case escapes, idempotent, and re-parse '
+    'to the same components; six respelling families must each normalise to one string.',
+    'alphabets and lengths as stated; encoded dots are not dot segments.', '5/C10')
+CHECKS['C11'] = ('exploration', 'enum',
+    'bounded-exhaustive enumeration of strings through URLInfo.parse, every documented accessor, '
+    'parse_url_or_log and urljoin_safe with a non-termination watchdog',
+    'Edge inputs (huge ports, over-long labels, 400-digit numeric hosts, 5000 dot segments) x 6 '
+    'codecs, all strings of length <=4 (5) over a 14-symbol Unicode alphabet with lone surrogates '
+    'and control characters in three positions, bracket/colon/@ soup to length 6 (8), the C10 '
+    'product under all codecs, and base x link products for joining: parse returns or raises '
+    'ValueError within the time limit, every slot/property/method of a result can be read, '
+    'parse_url_or_log and urljoin_safe never raise.',
+    'alphabets as stated; lru_cache cleared per shard.', '5/C11')
+
 NOT_YET = {}
 
 
